@@ -61,6 +61,7 @@ type stop struct{ at string }
 
 var errCommit = errors.New("verif: injected commit error (nothing was published)")
 var errRefused = errors.New("verif: the network refused the transaction")
+var errDB = errors.New("verif: injected database failure (clean-up transaction)")
 
 type published struct {
 	Seq       int
@@ -248,11 +249,22 @@ type env struct {
 	store didstore.Store
 	net   *fakeNet
 	nuts  *faultMM
-	mgr   *didsubject.SqlManager
+	mgr   *didsubject.SqlManager            // the manager of a node with both methods enabled
+	mgrs  map[string]*didsubject.SqlManager // one manager per set of enabled methods, all on the same database, key store and network
 	res   didsubject.Resolver
+	// script (one-shot): the next DELETE statement fails, which makes the transaction it is part of fail
+	failDelete    bool
+	deletesFailed int
 }
 
-var methods = []string{"web", "nuts"}
+// the sets of enabled DID methods (didmethods in the node configuration)
+const (
+	setBoth = "web+nuts"
+	setNuts = "nuts"
+	setWeb  = "web"
+)
+
+func methodsOf(set string) []string { return strings.Split(set, "+") }
 
 // goose (schema migrations) keeps its dialect/logger in package variables: engines are created one at a time.
 var envMu sync.Mutex
@@ -306,8 +318,23 @@ func newEnv(t *testing.T) *env {
 	nutsResolver := &didnuts.Resolver{Store: store}
 	fm := &faultMM{inner: didnuts.NewManager(ks, net, store, nutsResolver, db)}
 	web := didweb.NewManager(did.MustParseDID("did:web:example.com"), "iam", ks, db)
-	mgr := didsubject.New(db, map[string]didsubject.MethodManager{"web": web, "nuts": fm}, ks, methods)
-	return &env{dir: dir, tb: x, db: db, ks: ks, store: store, net: net, nuts: fm, mgr: mgr, res: didsubject.Resolver{DB: db}}
+	mgrs := map[string]*didsubject.SqlManager{
+		setBoth: didsubject.New(db, map[string]didsubject.MethodManager{"web": web, "nuts": fm}, ks, methodsOf(setBoth)),
+		setNuts: didsubject.New(db, map[string]didsubject.MethodManager{"nuts": fm}, ks, methodsOf(setNuts)),
+		setWeb:  didsubject.New(db, map[string]didsubject.MethodManager{"web": web}, ks, methodsOf(setWeb)),
+	}
+	e := &env{dir: dir, tb: x, db: db, ks: ks, store: store, net: net, nuts: fm, mgr: mgrs[setBoth], mgrs: mgrs, res: didsubject.Resolver{DB: db}}
+	// a database failure is a DELETE statement that returns an error: statements run on the goroutine of the caller, the script is only set by that goroutine
+	if err := db.Callback().Delete().Before("gorm:delete").Register("verif:c13-db-failure", func(tx *gorm.DB) {
+		if e.failDelete {
+			e.failDelete = false
+			e.deletesFailed++
+			_ = tx.AddError(errDB)
+		}
+	}); err != nil {
+		panic(err)
+	}
+	return e
 }
 
 func (e *env) close() {
@@ -320,11 +347,11 @@ func (e *env) close() {
 func ctx() context.Context { return audit.TestContext() }
 
 // sweep makes every pending change "older than a minute" by SQL (the only clock the sweep reads is compared with updated_at) and runs the real sweep.
-func (e *env) sweep() {
+func (e *env) sweep(mgr *didsubject.SqlManager) {
 	if err := e.db.Exec("UPDATE did_document_version SET updated_at = updated_at - 3600 WHERE id IN (SELECT did_document_version_id FROM did_change_log)").Error; err != nil {
 		panic(err)
 	}
-	e.mgr.Rollback(ctx())
+	mgr.Rollback(ctx())
 }
 
 // ---- snapshots -----------------------------------------------------------------------------------------------
@@ -466,7 +493,7 @@ func (e *env) pendingVMs() []string {
 
 type op struct {
 	Kind     string `json:"kind"`
-	Subject  string `json:"subject"`
+	Subject  string `json:"subject,omitempty"`
 	Type     string `json:"type,omitempty"`
 	Endpoint string `json:"endpoint,omitempty"`
 	Old      string `json:"replaces,omitempty"` // endpoint of the service that update/delete addresses
@@ -480,9 +507,16 @@ const (
 	kAddVM      = "add-verification-method"
 	kDeactivate = "deactivate"
 	kDupSvc     = "add-service-refused-by-method" // second service of a type: the real did:nuts manager refuses to publish it (natural commit failure)
+	// operations that leave the content of some or all documents of the subject as it is
+	kDelUnknown  = "delete-unknown-service"   // no document holds the service: every document is written again unchanged
+	kUpdSame     = "update-service-identical" // the service is replaced by itself
+	kAddSame     = "add-service-identical"    // documents that hold the service are not touched; when all do, the transaction is empty
+	kDeactivate2 = "deactivate-again"         // deactivated subject: the real did:nuts manager refuses (natural commit failure), did:web is written again unchanged
+	kCreateDup   = "create-existing-subject"  // refused inside the first transaction
+	kEnableWeb   = "restart-with-web-enabled" // not a subject operation: the node restarts with didmethods [web nuts] and migrates (real MigrateAddWebToNuts)
 )
 
-var kinds = []string{kCreate, kAddSvc, kUpdSvc, kDelSvc, kAddVM, kDeactivate, kDupSvc}
+var kinds = []string{kCreate, kAddSvc, kUpdSvc, kDelSvc, kAddVM, kDeactivate, kDupSvc, kDelUnknown, kUpdSame, kAddSame, kDeactivate2}
 
 func (o op) service() did.Service { return did.Service{Type: o.Type, ServiceEndpoint: o.Endpoint} }
 func fragment(typ, endpoint string) string {
@@ -496,6 +530,7 @@ type site struct {
 	Refuse    bool   // the network refuses the transaction inside the real Commit
 	NetStop   string // process stops inside the publish: "delivered" | "undelivered"
 	SweepAt   string // the rollback sweep runs at this boundary while the operation is in flight (its rows are younger than a minute)
+	DBFail    bool   // the clean-up transaction (tx2) fails: its first DELETE returns an error
 }
 
 var sites = []site{
@@ -513,10 +548,14 @@ var sites = []site{
 	{Name: "commit-error:nuts+stop@before-tx2", CommitErr: true, PanicAt: "tx2.before"},
 	{Name: "sweep@after-tx1", SweepAt: "tx1.done"},
 	{Name: "sweep@before-tx2", SweepAt: "tx2.before"},
+	{Name: "db-failure@tx2", DBFail: true},
+	{Name: "commit-error:nuts+db-failure@tx2", CommitErr: true, DBFail: true},
 }
 
 func (s site) class() string {
 	switch {
+	case s.DBFail:
+		return "db-failure"
 	case s.PanicAt != "" || s.NetStop != "":
 		return "stop"
 	case s.CommitErr || s.Refuse:
@@ -527,15 +566,72 @@ func (s site) class() string {
 	return "no-fault"
 }
 
+// method is the DID method whose commit the site is tied to ("" = a boundary every transaction passes).
+func (s site) method() string {
+	switch {
+	case s.CommitErr || s.Refuse || s.NetStop != "" || strings.HasSuffix(s.PanicAt, ":nuts"):
+		return "nuts"
+	case strings.HasSuffix(s.PanicAt, ":web"):
+		return "web"
+	}
+	return ""
+}
+
+// config is the node configuration a sequence runs under.
+type config struct {
+	Name    string
+	Start   string // set of enabled methods at the start
+	Upgrade bool   // the sequence holds a restart after which did:web is enabled as well
+}
+
+var configs = map[string]config{
+	"both":    {Name: "didmethods=[web nuts]", Start: setBoth},
+	"nuts":    {Name: "didmethods=[nuts]", Start: setNuts},
+	"web":     {Name: "didmethods=[web]", Start: setWeb},
+	"upgrade": {Name: "didmethods=[nuts], later [web nuts]", Start: setNuts, Upgrade: true},
+}
+
+// configOf is a pure function of the sequence number: 5 of 8 sequences run with both methods, one with each single method, one with the upgrade.
+func configOf(idx int) config {
+	switch idx % 8 {
+	case 2:
+		return configs["nuts"]
+	case 4:
+		return configs["upgrade"]
+	case 6:
+		return configs["web"]
+	}
+	return configs["both"]
+}
+
+// runs tells whether a fault site exists under the configuration (a site tied to the commit of a method that is never enabled does not).
+func (c config) runs(s site) bool {
+	m := s.method()
+	if m == "" || c.Upgrade {
+		return true
+	}
+	for _, x := range methodsOf(c.Start) {
+		if x == m {
+			return true
+		}
+	}
+	return false
+}
+
 // genSequence is a pure function of the PRNG: a valid history over 1-3 subjects in which every operation is applicable when all earlier ones took effect.
-func genSequence(rnd *rand.Rand, idx int) []op {
+func genSequence(rnd *rand.Rand, idx int, cfg config) []op {
 	type subj struct {
 		name     string
 		services map[string]string
 		dead     bool
+		again    bool // a repeated deactivation is in the sequence
 	}
 	nSubj := 1 + rnd.Intn(3)
-	length := 5 + rnd.Intn(5)
+	length := 6 + rnd.Intn(5)
+	upgradeAt := -1
+	if cfg.Upgrade {
+		upgradeAt = 3 + rnd.Intn(3)
+	}
 	var subs []*subj
 	var seq []op
 	serial := 0
@@ -546,11 +642,25 @@ func genSequence(rnd *rand.Rand, idx int) []op {
 	}
 	create()
 	for len(seq) < length {
-		var live []*subj
+		if len(seq) == upgradeAt {
+			upgradeAt = -1
+			length++ // the restart is not an operation
+			seq = append(seq, op{Kind: kEnableWeb})
+			continue
+		}
+		var live, dead []*subj
 		for _, s := range subs {
 			if !s.dead {
 				live = append(live, s)
+			} else if !s.again {
+				dead = append(dead, s)
 			}
+		}
+		if len(dead) > 0 && (len(live) == 0 || rnd.Intn(4) == 0) {
+			s := dead[rnd.Intn(len(dead))]
+			s.again = true
+			seq = append(seq, op{Kind: kDeactivate2, Subject: s.name})
+			continue
 		}
 		if len(subs) < nSubj && (len(live) == 0 || rnd.Intn(4) == 0) {
 			create()
@@ -566,8 +676,12 @@ func genSequence(rnd *rand.Rand, idx int) []op {
 		}
 		sort.Strings(types)
 		serial++
-		switch c := rnd.Intn(12); {
-		case c < 3 || (c < 7 && len(types) == 0):
+		c := rnd.Intn(16)
+		if c == 6 && cfg.Start == setWeb {
+			c = 0 // nothing refuses a second service of a type when did:nuts is not enabled
+		}
+		switch {
+		case c < 3 || (c < 9 && len(types) == 0):
 			t := fmt.Sprintf("svc%d", len(types)+serial)
 			ep := fmt.Sprintf("https://example.com/%s/%d", s.name, serial)
 			s.services[t] = ep
@@ -584,8 +698,18 @@ func genSequence(rnd *rand.Rand, idx int) []op {
 		case c < 7:
 			t := types[rnd.Intn(len(types))]
 			seq = append(seq, op{Kind: kDupSvc, Subject: s.name, Type: t, Endpoint: fmt.Sprintf("https://example.com/%s/dup%d", s.name, serial)})
-		case c < 10:
+		case c < 8:
+			t := types[rnd.Intn(len(types))]
+			seq = append(seq, op{Kind: kUpdSame, Subject: s.name, Type: t, Endpoint: s.services[t], Old: s.services[t]})
+		case c < 9:
+			t := types[rnd.Intn(len(types))]
+			seq = append(seq, op{Kind: kAddSame, Subject: s.name, Type: t, Endpoint: s.services[t]})
+		case c < 12:
 			seq = append(seq, op{Kind: kAddVM, Subject: s.name})
+		case c < 13:
+			seq = append(seq, op{Kind: kDelUnknown, Subject: s.name, Type: fmt.Sprintf("unknown%d", serial), Old: "https://example.com/unknown"})
+		case c < 14:
+			seq = append(seq, op{Kind: kCreateDup, Subject: subs[rnd.Intn(len(subs))].name})
 		default:
 			if len(seq) >= 3 {
 				s.dead = true
@@ -602,6 +726,7 @@ type armed struct {
 	s         site
 	panicked  bool
 	swept     bool
+	dbArmed   bool
 	trace     []string
 	pending   []string // verification methods of the versions written by the first transaction
 	sweepsRan int
@@ -612,22 +737,33 @@ type pass struct {
 	e        *env
 	seqIdx   int
 	seq      []op
+	cfg      config
 	s        site
 	cur      *armed
 	subjects []string
+	// the node as it is configured right now
+	mgr     *didsubject.SqlManager
+	methods []string
 	// knowledge accumulated from acknowledged outcomes
-	didSets   map[string][]string       // subject -> DIDs observed when it first existed
-	abandoned map[string]string         // verification method id -> operation that created it for a version that was abandoned
-	seenHash  map[string]map[int]string // DID -> version -> document hash seen at a quiescent point
-	maxVer    map[string]int
-	broken    bool
-	stats     map[string]int
-	samples   []any
-	firedAll  bool
-	orders    map[string]bool
-	rnd       *rand.Rand
-	live      map[string]bool // subjects that exist and are not deactivated, from acknowledged outcomes
-	pendingOK bool            // change records of a stopped operation of another subject are waiting for the sweep: do not demand an empty log
+	didSets     map[string][]string       // subject -> DIDs observed when it first existed
+	subjMethods map[string][]string       // subject -> the methods it must have a DID of (those enabled when it was created, plus did:web after the migration)
+	abandoned   map[string]string         // verification method id -> operation that created it for a version that was abandoned
+	seenHash    map[string]map[int]string // DID -> version -> document hash seen at a quiescent point
+	maxVer      map[string]int
+	broken      bool
+	stats       map[string]int
+	samples     []any
+	firedAll    bool
+	orders      map[string]bool
+	rnd         *rand.Rand
+	live        map[string]bool // subjects that exist and are not deactivated, from acknowledged outcomes
+	pendingOK   bool            // change records of a stopped operation of another subject are waiting for the sweep: do not demand an empty log
+}
+
+func newPass(r *ev.Run, e *env, seqIdx int, seq []op, cfg config, s site, stream string) *pass {
+	return &pass{r: r, e: e, seqIdx: seqIdx, seq: seq, cfg: cfg, s: s, mgr: e.mgrs[cfg.Start], methods: methodsOf(cfg.Start),
+		didSets: map[string][]string{}, subjMethods: map[string][]string{}, abandoned: map[string]string{}, seenHash: map[string]map[int]string{},
+		maxVer: map[string]int{}, stats: map[string]int{}, orders: map[string]bool{}, rnd: r.Rand(stream), live: map[string]bool{}}
 }
 
 var passes sync.Map // goroutine id -> *pass
@@ -652,7 +788,11 @@ func hook(name string, args []any) error {
 	}
 	if a.s.SweepAt == at && !a.swept {
 		a.swept = true
-		p.e.mgr.Rollback(ctx())
+		p.mgr.Rollback(ctx())
+	}
+	if a.s.DBFail && at == "tx2.before" && !a.dbArmed {
+		a.dbArmed = true
+		p.e.failDelete = true
 	}
 	if a.s.PanicAt == at && !a.panicked {
 		a.panicked = true
@@ -678,20 +818,22 @@ func (p *pass) exec(o op) (err error, stopped *stop) {
 			err = fmt.Errorf("panic: %v", v)
 		}
 	}()
-	m := p.e.mgr
+	m := p.mgr
 	switch o.Kind {
-	case kCreate:
+	case kCreate, kCreateDup:
 		_, _, err = m.Create(ctx(), didsubject.DefaultCreationOptions().With(didsubject.SubjectCreationOption{Subject: o.Subject}))
-	case kAddSvc, kDupSvc:
+	case kAddSvc, kDupSvc, kAddSame:
 		_, err = m.CreateService(ctx(), o.Subject, o.service())
-	case kUpdSvc:
+	case kUpdSvc, kUpdSame:
 		_, err = m.UpdateService(ctx(), o.Subject, ssi.MustParseURI("#"+fragment(o.Type, o.Old)), o.service())
-	case kDelSvc:
+	case kDelSvc, kDelUnknown:
 		err = m.DeleteService(ctx(), o.Subject, ssi.MustParseURI("#"+fragment(o.Type, o.Old)))
 	case kAddVM:
 		_, err = m.AddVerificationMethod(ctx(), o.Subject, orm.AssertionKeyUsage())
-	case kDeactivate:
+	case kDeactivate, kDeactivate2:
 		err = m.Deactivate(ctx(), o.Subject)
+	default:
+		panic("unknown operation kind " + o.Kind)
 	}
 	return
 }
@@ -701,6 +843,7 @@ func (p *pass) arm(s site) *armed {
 	p.e.nuts.failCommit = s.CommitErr
 	p.e.net.refuseNext = s.Refuse
 	p.e.net.stopNext = s.NetStop
+	p.e.failDelete = false
 	p.cur = a
 	return a
 }
@@ -723,19 +866,30 @@ func (p *pass) disarm(a *armed) bool {
 	if a.s.SweepAt != "" && !a.swept {
 		fired = false
 	}
-	p.e.nuts.failCommit, p.e.net.refuseNext, p.e.net.stopNext = false, false, ""
+	if a.s.DBFail && (!a.dbArmed || p.e.failDelete) {
+		fired = false
+	}
+	p.e.nuts.failCommit, p.e.net.refuseNext, p.e.net.stopNext, p.e.failDelete = false, false, "", false
 	p.cur = nil
 	return fired
 }
 
 func (p *pass) violation(key, what string, o op, phase string, pre, post *snapshot, extra map[string]any) {
-	w := map[string]any{"sequence": p.seqIdx, "operations": p.seq, "site": p.s.Name, "operation": o, "phase": phase,
+	w := map[string]any{"sequence": p.seqIdx, "configuration": p.cfg.Name, "enabled_methods_now": p.methods, "operations": p.seq, "site": p.s.Name, "operation": o, "phase": phase,
 		"before": pre.Subjects[o.Subject], "after": post.Subjects[o.Subject], "change_log_after": post.ChangeLog, "recent_error_logs": logs.tail(5)}
 	for k, v := range extra {
 		w[k] = v
 	}
-	p.r.Violation(key, fmt.Sprintf("%s [operation %s of subject %s, fault site %s, %s]", what, o.Kind, o.Subject, p.s.Name, phase), w)
+	p.r.Violation(key, fmt.Sprintf("%s [operation %s of subject %s, %s, fault site %s, %s]", what, o.Kind, o.Subject, p.cfg.Name, p.s.Name, phase), w)
 	p.broken = true
+}
+
+// wantMethods: the methods a subject must have exactly one DID of (for a subject that is being created: the enabled ones).
+func (p *pass) wantMethods(subject string) []string {
+	if m, ok := p.subjMethods[subject]; ok {
+		return m
+	}
+	return p.methods
 }
 
 // invariants that hold at every quiescent point, whatever happened before.
@@ -784,8 +938,13 @@ func (p *pass) invariants(o op, phase string, pre, post *snapshot) {
 				}
 			}
 		}
-		if len(ss.DIDs) != len(methods) || perMethod["web"] != 1 || perMethod["nuts"] != 1 {
-			p.violation("C13/list-dids/not-one-full-set", fmt.Sprintf("subject %s lists %v: not exactly one DID per enabled method", name, set), o, phase, pre, post, nil)
+		want := p.wantMethods(name)
+		full := len(ss.DIDs) == len(want)
+		for _, m := range want {
+			full = full && perMethod[m] == 1
+		}
+		if !full {
+			p.violation("C13/list-dids/not-one-full-set", fmt.Sprintf("subject %s lists %v: not exactly one DID per method of %v", name, set, want), o, phase, pre, post, nil)
 		}
 		sort.Strings(set)
 		if known, ok := p.didSets[name]; ok && !reflect.DeepEqual(known, set) {
@@ -841,7 +1000,7 @@ func (p *pass) establish(post *snapshot) {
 			p.maxVer[d.DID] = len(d.Versions) - 1
 		}
 		sort.Strings(set)
-		if _, ok := p.didSets[name]; !ok && len(set) == len(methods) {
+		if _, ok := p.didSets[name]; !ok && len(set) == len(p.wantMethods(name)) {
 			p.didSets[name] = set
 		}
 	}
@@ -857,58 +1016,152 @@ func without(list []string, drop string) []string {
 	return out
 }
 
-// effect checks that a DID that advanced shows exactly what the operation asked for.
-func effect(o op, before *didSnap, after didSnap) string {
-	var wantServices []string
-	wantVMs := 0
-	if before != nil {
-		wantServices = append(wantServices, before.Services...)
-		wantVMs = len(before.VMs)
+func contains(list []string, x string) bool {
+	for _, s := range list {
+		if s == x {
+			return true
+		}
+	}
+	return false
+}
+
+// wantServices is the reference for the services of one document after the operation, given its services before (fragment:type, sorted).
+func wantServices(o op, before []string) []string {
+	w := append([]string{}, before...)
+	add := func(x string) {
+		if !contains(w, x) {
+			w = append(w, x)
+		}
 	}
 	switch o.Kind {
-	case kCreate:
+	case kAddSvc, kAddSame, kDupSvc:
+		add(fragment(o.Type, o.Endpoint) + ":" + o.Type)
+	case kUpdSvc, kUpdSame:
+		w = without(w, fragment(o.Type, o.Old)+":"+o.Type)
+		add(fragment(o.Type, o.Endpoint) + ":" + o.Type)
+	case kDelSvc, kDelUnknown:
+		w = without(w, fragment(o.Type, o.Old)+":"+o.Type)
+	case kDeactivate, kDeactivate2:
+		w = nil
+	}
+	sort.Strings(w)
+	if len(w) == 0 {
+		return nil
+	}
+	return w
+}
+
+func deactivates(o op) bool { return o.Kind == kDeactivate || o.Kind == kDeactivate2 }
+
+// effect checks that a DID that advanced shows exactly what the operation asked for.
+func effect(o op, before *didSnap, after didSnap) string {
+	var had []string
+	wantVMs := 0
+	if before != nil {
+		had = before.Services
+		wantVMs = len(before.VMs)
+	}
+	want := wantServices(o, had)
+	switch {
+	case o.Kind == kCreate:
 		wantVMs = 1
-	case kAddSvc:
-		wantServices = append(wantServices, fragment(o.Type, o.Endpoint)+":"+o.Type)
-	case kUpdSvc:
-		wantServices = append(without(wantServices, fragment(o.Type, o.Old)+":"+o.Type), fragment(o.Type, o.Endpoint)+":"+o.Type)
-	case kDelSvc:
-		wantServices = without(wantServices, fragment(o.Type, o.Old)+":"+o.Type)
-	case kAddVM:
+	case o.Kind == kAddVM:
 		wantVMs++
-	case kDeactivate:
-		wantServices, wantVMs = nil, 0
+	case deactivates(o):
+		wantVMs = 0
 	}
-	sort.Strings(wantServices)
-	if len(wantServices) == 0 {
-		wantServices = nil
-	}
-	if !reflect.DeepEqual(wantServices, after.Services) {
-		return fmt.Sprintf("services are %v, expected %v", after.Services, wantServices)
+	if !reflect.DeepEqual(want, after.Services) {
+		return fmt.Sprintf("services are %v, expected %v", after.Services, want)
 	}
 	if len(after.VMs) != wantVMs {
 		return fmt.Sprintf("%d verification methods, expected %d", len(after.VMs), wantVMs)
 	}
-	if before != nil && o.Kind != kDeactivate {
+	if before != nil && !deactivates(o) {
 		for _, vm := range before.VMs {
-			found := false
-			for _, x := range after.VMs {
-				found = found || x == vm
-			}
-			if !found {
+			if !contains(after.VMs, vm) {
 				return "verification method " + vm + " disappeared"
 			}
 		}
 	}
-	if (o.Kind == kDeactivate) != after.Deactivated {
+	if deactivates(o) != after.Deactivated {
 		return fmt.Sprintf("deactivated=%v", after.Deactivated)
 	}
 	return ""
 }
 
+// plan is the reference for what an operation does to the documents of its subject, computed from the operation and the state observed (and
+// accepted) before it - never from what the code under test did during the operation.
+type plan struct {
+	early    bool            // refused inside the first database transaction: nothing is written, no boundary is passed
+	natural  bool            // the real did:nuts manager refuses to publish this on its own
+	changed  map[string]bool // methods whose document gets a new version in the first transaction
+	required map[string]bool // methods whose document gets new CONTENT; the others of 'changed' are written again as they are
+}
+
+// pureNoop: every document the operation writes keeps its content.
+func (pl plan) pureNoop() bool { return len(pl.required) == 0 && len(pl.changed) > 0 }
+
+// applicable tells whether the fault of a site can happen during the operation: a site at the commit of a method needs a change of that method's
+// document, a failing clean-up transaction needs something to clean up.
+func (pl plan) applicable(s site) bool {
+	if m := s.method(); m != "" && !pl.changed[m] {
+		return false
+	}
+	if s.DBFail && len(pl.changed) == 0 {
+		return false
+	}
+	return !pl.early
+}
+
+func (p *pass) plan(o op, pre *snapshot) plan {
+	pl := plan{changed: map[string]bool{}, required: map[string]bool{}}
+	switch o.Kind {
+	case kCreate:
+		for _, m := range p.methods {
+			pl.changed[m], pl.required[m] = true, true
+		}
+		return pl
+	case kCreateDup:
+		pl.early = true
+		return pl
+	}
+	for _, d := range pre.Subjects[o.Subject].DIDs {
+		alters := o.Kind == kAddVM || o.Kind == kDeactivate || !reflect.DeepEqual(wantServices(o, d.Services), d.Services)
+		if alters {
+			pl.required[d.Method] = true
+		}
+		if alters || o.Kind != kAddSame {
+			pl.changed[d.Method] = true
+		}
+		if d.Method == "nuts" && (o.Kind == kDupSvc || o.Kind == kDeactivate2) {
+			pl.natural = true
+		}
+	}
+	return pl
+}
+
+// sameDocument: the DID shows the same document (the version numbers may differ).
+func sameDocument(x, y didSnap) bool {
+	return x.DID == y.DID && x.ResolveErr == y.ResolveErr && x.Deactivated == y.Deactivated && reflect.DeepEqual(x.VMs, y.VMs) && reflect.DeepEqual(x.Services, y.Services) &&
+		x.NetErr == y.NetErr && x.NetHash == y.NetHash && x.NetTxs == y.NetTxs
+}
+
+// rewrittenTogether: every DID of the subject got exactly one more version, all earlier versions are as they were and every DID shows the document it showed before.
+func rewrittenTogether(b, a subjSnap) bool {
+	if !b.Listed || !a.Listed || b.Exists != a.Exists || len(b.DIDs) != len(a.DIDs) {
+		return false
+	}
+	for i := range a.DIDs {
+		if !sameDocument(b.DIDs[i], a.DIDs[i]) || len(a.DIDs[i].Versions) != len(b.DIDs[i].Versions)+1 || !reflect.DeepEqual(b.DIDs[i].Hashes, a.DIDs[i].Hashes[:len(b.DIDs[i].Hashes)]) {
+			return false
+		}
+	}
+	return true
+}
+
 // compare decides one operation outcome. tookEffect says what the caller/ledger observed: the operation succeeded, or it was
 // cut short after the network method had published. Returns false when the property was violated.
-func (p *pass) compare(o op, phase, class string, tookEffect bool, pre, post *snapshot) bool {
+func (p *pass) compare(o op, pl plan, phase, class string, tookEffect bool, pre, post *snapshot) bool {
 	p.count("snapshots_compared", 1)
 	was := p.broken
 	p.broken = false
@@ -932,29 +1185,38 @@ func (p *pass) compare(o op, phase, class string, tookEffect bool, pre, post *sn
 	b, a := pre.Subjects[o.Subject], post.Subjects[o.Subject]
 	if !tookEffect {
 		if !reflect.DeepEqual(b, a) && !p.broken {
-			key := "C13/not-rolled-back/" + o.Kind + "/after-" + class
-			what := "the operation failed but the subject does not show its previous state after the sweep"
-			if len(b.DIDs) == len(a.DIDs) {
-				var moved, stayed []string
-				for i := range a.DIDs {
-					if reflect.DeepEqual(a.DIDs[i], b.DIDs[i]) {
-						stayed = append(stayed, a.DIDs[i].DID)
-					} else {
-						moved = append(moved, a.DIDs[i].DID)
+			if pl.pureNoop() && rewrittenTogether(b, a) {
+				// the operation did not change what any DID shows, and that is what every DID shows now; the statement does not say whether the
+				// version numbers may have moved (together) when the sweep finds the "new" document on the network already
+				p.r.Unspecified("unchanged-document-written-again-kept-after-" + class)
+				p.count("rewrites_of_unchanged_documents_kept_without_publish", 1)
+			} else {
+				key := "C13/not-rolled-back/" + o.Kind + "/after-" + class
+				what := "the operation failed but the subject does not show its previous state after the sweep"
+				if len(b.DIDs) == len(a.DIDs) {
+					var moved, stayed []string
+					for i := range a.DIDs {
+						if reflect.DeepEqual(a.DIDs[i], b.DIDs[i]) {
+							stayed = append(stayed, a.DIDs[i].DID)
+						} else {
+							moved = append(moved, a.DIDs[i].DID)
+						}
 					}
+					if len(stayed) > 0 {
+						key = "C13/partial-change/" + o.Kind + "/after-" + class
+					}
+					what += fmt.Sprintf(" (changed: %v, unchanged: %v)", moved, stayed)
 				}
-				if len(stayed) > 0 {
-					key = "C13/partial-change/" + o.Kind + "/after-" + class
-				}
-				what += fmt.Sprintf(" (changed: %v, unchanged: %v)", moved, stayed)
+				p.violation(key, what, o, phase, pre, post, nil)
 			}
-			p.violation(key, what, o, phase, pre, post, nil)
 		}
 	} else if !p.broken {
-		if !a.Listed || len(a.DIDs) != len(methods) {
+		if !a.Listed || len(a.DIDs) != len(p.wantMethods(o.Subject)) {
 			p.violation("C13/success-without-dids/"+o.Kind, "the operation took effect but the subject does not list a full set of DIDs", o, phase, pre, post, nil)
 		} else {
-			var advanced, not []string
+			// per DID: a document whose content the operation alters must have exactly one more version with that content; one that is written again
+			// unchanged may have one more version (same content) or not, but when the operation alters nothing they all do the same
+			var advanced, not, rewritten, kept []string
 			for i, d := range a.DIDs {
 				var bd *didSnap
 				prev := -1
@@ -968,7 +1230,11 @@ func (p *pass) compare(o op, phase, class string, tookEffect bool, pre, post *sn
 				}
 				switch len(d.Versions) - 1 {
 				case prev + 1:
-					advanced = append(advanced, d.DID)
+					if pl.required[d.Method] {
+						advanced = append(advanced, d.DID)
+					} else {
+						rewritten = append(rewritten, d.DID)
+					}
 					if bd != nil && !reflect.DeepEqual(bd.Hashes, d.Hashes[:len(bd.Hashes)]) {
 						p.violation("C13/versions/rewritten", "earlier versions of "+d.DID+" changed", o, phase, pre, post, nil)
 					}
@@ -976,7 +1242,11 @@ func (p *pass) compare(o op, phase, class string, tookEffect bool, pre, post *sn
 						p.violation("C13/wrong-content/"+o.Kind, "new version of "+d.DID+": "+msg, o, phase, pre, post, nil)
 					}
 				case prev:
-					not = append(not, d.DID)
+					if pl.required[d.Method] {
+						not = append(not, d.DID)
+					} else if pl.changed[d.Method] {
+						kept = append(kept, d.DID)
+					}
 				default:
 					p.violation("C13/not-one-version/"+o.Kind+"/after-"+class, fmt.Sprintf("%s went from version %d to %d", d.DID, prev, len(d.Versions)-1), o, phase, pre, post, nil)
 				}
@@ -985,13 +1255,22 @@ func (p *pass) compare(o op, phase, class string, tookEffect bool, pre, post *sn
 				p.violation("C13/partial-change/"+o.Kind+"/after-"+class, fmt.Sprintf("advanced: %v, not advanced: %v", advanced, not), o, phase, pre, post, nil)
 			} else if len(not) > 0 && !p.broken {
 				p.violation("C13/rolled-back-although-published/"+o.Kind+"/after-"+class, "the network method published the new version but no DID of the subject advanced", o, phase, pre, post, nil)
+			} else if pl.pureNoop() && len(rewritten) > 0 && len(kept) > 0 && !p.broken {
+				p.violation("C13/partial-change/"+o.Kind+"/after-"+class, fmt.Sprintf("new version: %v, no new version: %v", rewritten, kept), o, phase, pre, post, nil)
+			}
+			if len(rewritten) > 0 {
+				p.count("documents_written_again_unchanged", len(rewritten))
 			}
 			// FindServices is the third observation point: it must agree with the documents
-			if !p.broken && o.Type != "" {
+			if !p.broken && o.Type != "" && !pl.natural {
 				found, err := p.e.mgr.FindServices(ctx(), o.Subject, &o.Type)
 				want := 0
-				if o.Kind == kAddSvc || o.Kind == kUpdSvc {
-					want = len(methods)
+				for _, d := range b.DIDs {
+					for _, s := range wantServices(o, d.Services) {
+						if strings.HasSuffix(s, ":"+o.Type) {
+							want++
+						}
+					}
 				}
 				if err != nil || len(found) != want {
 					p.violation("C13/find-services/"+o.Kind, fmt.Sprintf("FindServices(%s) returned %d services (err=%v), expected %d", o.Type, len(found), err, want), o, phase, pre, post, nil)
@@ -1010,6 +1289,29 @@ func (p *pass) compare(o op, phase, class string, tookEffect bool, pre, post *sn
 	return ok
 }
 
+// enableWeb is the restart of a node whose configuration now enables did:web besides did:nuts: the start-up migration (vdr.Module.Migrate) calls the real
+// MigrateAddWebToNuts for every did:nuts DID the node owns. From then on the two documents of such a subject differ (the new did:web document has no services).
+func (p *pass) enableWeb() {
+	var ids []string
+	if err := p.e.db.Raw("SELECT id FROM did WHERE id LIKE 'did:nuts:%' ORDER BY id").Scan(&ids).Error; err != nil {
+		panic(err)
+	}
+	p.mgr, p.methods = p.e.mgrs[setBoth], methodsOf(setBoth)
+	for _, id := range ids {
+		if err := p.mgr.MigrateAddWebToNuts(ctx(), did.MustParseDID(id)); err != nil {
+			panic(fmt.Sprintf("MigrateAddWebToNuts(%s): %v", id, err))
+		}
+	}
+	for name, alive := range p.live {
+		if alive { // a deactivated subject is not migrated
+			p.subjMethods[name] = p.methods
+			delete(p.didSets, name)
+		}
+	}
+	p.count("restarts_with_web_enabled", 1)
+	p.count("subjects_migrated_to_two_methods", len(ids))
+}
+
 func (p *pass) run() {
 	defer func() {
 		if v := recover(); v != nil {
@@ -1026,6 +1328,11 @@ func (p *pass) run() {
 			p.firedAll = false
 			return
 		}
+		if o.Kind == kEnableWeb {
+			p.enableWeb()
+			last = nil
+			continue
+		}
 		pre := last
 		if pre != nil {
 			if _, full := pre.Subjects[o.Subject]; !full {
@@ -1036,8 +1343,23 @@ func (p *pass) run() {
 			pre = p.e.snap(o.Subject)
 		}
 		last = nil
+		pl := p.plan(o, pre)
+		if pl.early && p.s.Name != "none" {
+			// refused before anything is written: no boundary is passed, the state stays; decided once, in the pass without faults
+			p.count("refused_operations_decided_in_the_fault_free_pass_only", 1)
+			last = pre
+			continue
+		}
+		s := p.s
+		if !pl.applicable(s) {
+			// e.g. a commit of did:web while only did:nuts is enabled; an identical service that every document holds (empty transaction)
+			s = sites[0]
+			if p.s.Name != "none" {
+				p.count("operations_the_fault_site_does_not_apply_to", 1)
+			}
+		}
 		ledgerBefore := len(p.e.net.ledger)
-		a := p.arm(p.s)
+		a := p.arm(s)
 		err, stopped := p.exec(o)
 		fired := p.disarm(a)
 		if p.broken {
@@ -1045,8 +1367,8 @@ func (p *pass) run() {
 		}
 		p.count("operations", 1)
 		p.orders[strings.Join(a.trace, " ")] = true
-		class := p.s.class()
-		natural := o.Kind == kDupSvc
+		class := s.class()
+		natural := pl.natural
 		if !fired {
 			// a fault behind the point at which the real method manager refuses on its own is not reachable
 			if !(natural && stopped == nil) {
@@ -1055,9 +1377,10 @@ func (p *pass) run() {
 			}
 		} else if class != "no-fault" {
 			p.count("faults_injected", 1)
-			p.count("fault:"+p.s.Name+"/"+o.Kind, 1)
+			p.count("fault:"+s.Name+"/"+o.Kind, 1)
 		}
 		publishedNow := len(p.e.net.ledger) > ledgerBefore
+		dbFailed := s.DBFail && fired && stopped == nil
 		var cleanBefore bool
 		if stopped != nil {
 			// restart: the persistent subscription hands over what was written before the stop
@@ -1084,25 +1407,45 @@ func (p *pass) run() {
 
 		tookEffect := err == nil && stopped == nil
 		switch {
-		case stopped != nil:
-			tookEffect = publishedNow
-			if publishedNow {
-				p.count("stops_after_publish", 1)
-			} else {
-				p.count("stops_before_publish", 1)
+		case stopped != nil || dbFailed:
+			// cut short between the database write and the end of the clean-up: what the network method published decides
+			if dbFailed {
+				p.count("clean_up_transactions_failed", 1)
+				if err == nil {
+					p.r.Unspecified("failed-clean-up-transaction-not-reported")
+				}
+			}
+			switch {
+			case !pl.changed["nuts"]:
+				// no network method takes part (did:web is served from the database, the write is the publication): the statement names no point
+				// between write and publish here; either outcome is accepted, all-or-nothing is demanded of whichever it is
+				tookEffect = !reflect.DeepEqual(pre.Subjects[o.Subject], post.Subjects[o.Subject])
+				p.r.Unspecified("cut-short-after-database-write-without-network-method")
+				p.count("cut_short_without_network_method", 1)
+			case publishedNow:
+				tookEffect = true
+				p.count("cut_short_after_publish", 1)
+			default:
+				tookEffect = false
+				p.count("cut_short_before_publish", 1)
 			}
 		case err != nil && publishedNow:
 			p.r.Unspecified("error-returned-after-publish")
 			return
+		case err != nil && pl.early:
+			p.count("refusals_inside_first_transaction", 1)
+			class = "refusal"
 		case err != nil && class != "commit-error" && !natural:
 			p.violation("C13/further-operation-failed/"+o.Kind, "an operation without an injected failure failed: "+err.Error(), o, "first attempt", pre, post, nil)
 			return
+		case err == nil && pl.early:
+			p.r.Unspecified("operation-expected-to-be-refused-was-accepted/" + o.Kind)
 		case err == nil && natural:
 			p.r.Unspecified("second-service-of-a-type-accepted")
 		case err == nil && class == "commit-error" && fired:
 			p.violation("C13/commit-error-swallowed/"+o.Kind, "the network method's commit failed but the operation reported success", o, "first attempt", pre, post, nil)
 		}
-		if natural && err != nil && stopped == nil {
+		if natural && err != nil && stopped == nil && !dbFailed {
 			p.count("natural_commit_failures", 1)
 			class = "commit-error"
 		}
@@ -1110,13 +1453,13 @@ func (p *pass) run() {
 		if tookEffect {
 			outcome = "took-effect"
 		}
-		ok := p.compare(o, "after "+class+" and sweep", class, tookEffect, pre, post)
-		p.r.Case(strings.Join([]string{o.Kind, p.s.Name, outcome, fmt.Sprint(len(pre.Subjects[o.Subject].DIDs) > 0)}, "/"), fired || class == "no-fault")
+		ok := p.compare(o, pl, "after "+class+" and sweep", class, tookEffect, pre, post)
+		p.r.Case(strings.Join([]string{o.Kind, p.cfg.Start, fmt.Sprint(len(p.methods)), s.Name, outcome, fmt.Sprint(len(pre.Subjects[o.Subject].DIDs) > 0)}, "/"), fired || class == "no-fault" || class == "refusal")
 		if !tookEffect && ok {
 			p.abandon(a.pending, pre, o)
 		}
 		if i == 1 || (stopped != nil && len(p.samples) < 2) {
-			p.samples = append(p.samples, map[string]any{"sequence": p.seqIdx, "site": p.s.Name, "operation": o, "boundaries_reached": a.trace, "error": fmt.Sprint(err),
+			p.samples = append(p.samples, map[string]any{"sequence": p.seqIdx, "configuration": p.cfg.Name, "site": s.Name, "operation": o, "boundaries_reached": a.trace, "error": fmt.Sprint(err),
 				"stopped": stopped != nil, "published": publishedNow, "outcome": outcome, "clean_before_sweep": cleanBefore,
 				"versions_before": versionsOf(pre.Subjects[o.Subject]), "versions_after": versionsOf(post.Subjects[o.Subject])})
 		}
@@ -1125,9 +1468,9 @@ func (p *pass) run() {
 		}
 		last = post
 		if tookEffect {
-			p.live[o.Subject] = o.Kind != kDeactivate
+			p.settle(o)
 		}
-		if !tookEffect && !natural {
+		if !tookEffect && !natural && !pl.early {
 			// the repeated attempt
 			pre2 := post
 			p.cur = &armed{} // record boundaries and pending keys, no fault
@@ -1144,14 +1487,25 @@ func (p *pass) run() {
 				p.violation(key, fmt.Sprintf("the repeated attempt failed: %v", err2), o, "retry", pre2, post2, nil)
 				return
 			}
-			ok = p.compare(o, "retry", "retry", true, pre2, post2)
-			p.r.Case(strings.Join([]string{o.Kind, p.s.Name, "retry"}, "/"), true)
+			ok = p.compare(o, p.plan(o, pre2), "retry", "retry", true, pre2, post2)
+			p.r.Case(strings.Join([]string{o.Kind, p.cfg.Start, fmt.Sprint(len(p.methods)), s.Name, "retry"}, "/"), true)
 			if !ok {
 				return
 			}
 			last = post2
-			p.live[o.Subject] = o.Kind != kDeactivate
+			p.settle(o)
 		}
+	}
+}
+
+// settle records what an operation that took effect means for later expectations.
+func (p *pass) settle(o op) {
+	switch {
+	case o.Kind == kCreate:
+		p.live[o.Subject] = true
+		p.subjMethods[o.Subject] = p.methods
+	case deactivates(o):
+		p.live[o.Subject] = false
 	}
 }
 
@@ -1165,7 +1519,7 @@ func (p *pass) sweep(o op) {
 			p.broken = true
 		}
 	}()
-	p.e.sweep()
+	p.e.sweep(p.mgr)
 }
 
 // between runs one fault-free operation on another live subject while the change records of the stopped operation o are still waiting for the sweep.
@@ -1192,9 +1546,9 @@ func (p *pass) between(o op, pre *snapshot) bool {
 		return false
 	}
 	p.pendingOK = true
-	ok := p.compare(bo, "between stop and sweep", "no-fault", true, bpre, bpost)
+	ok := p.compare(bo, p.plan(bo, bpre), "between stop and sweep", "no-fault", true, bpre, bpost)
 	p.pendingOK = false
-	p.r.Case(strings.Join([]string{bo.Kind, p.s.Name, "other-subject-before-sweep"}, "/"), true)
+	p.r.Case(strings.Join([]string{bo.Kind, p.cfg.Start, fmt.Sprint(len(p.methods)), p.s.Name, "other-subject-before-sweep"}, "/"), true)
 	// the stopped operation is compared against its own "before": carry over what legitimately moved
 	pre.Rows[bo.Subject] = bpost.Rows[bo.Subject]
 	for id, h := range bpost.Net {
@@ -1239,8 +1593,7 @@ func sameSubjectBeforeSweep(t *testing.T, r *ev.Run) {
 			continue
 		}
 		for _, first := range []string{kAddVM, kAddSvc} {
-			p := &pass{r: r, e: newEnv(t), s: s, didSets: map[string][]string{}, abandoned: map[string]string{}, seenHash: map[string]map[int]string{}, maxVer: map[string]int{},
-				stats: map[string]int{}, orders: map[string]bool{}, rnd: r.Rand("same-subject"), live: map[string]bool{}}
+			p := newPass(r, newEnv(t), -1, nil, configs["both"], s, "same-subject")
 			passes.Store(id, p)
 			func() {
 				defer p.e.close()
@@ -1258,7 +1611,7 @@ func sameSubjectBeforeSweep(t *testing.T, r *ev.Run) {
 				}
 				p.e.net.redeliver()
 				err2, _ := p.exec(op{Kind: kAddSvc, Subject: "s", Type: "second", Endpoint: "https://example.com/second"})
-				p.e.sweep()
+				p.e.sweep(p.mgr)
 				post := p.e.snap("s")
 				stoppedKeys := map[string]bool{}
 				existed := map[string]bool{}
@@ -1334,15 +1687,19 @@ var logs = &logCapture{}
 func TestCheck(t *testing.T) {
 	r := ev.Start(t, "C13", "fault_enumeration")
 	defer r.Finish()
-	r.SetRule("cases = (generated operation sequence over 1-3 subjects, fault site, operation): every operation of every sequence is executed once per fault site " +
-		"(stop at each boundary of transactionHelper, commit error / network refusal of the did:nuts method, stop inside the publish, sweep while in flight), then restart, " +
-		"ageing by SQL, the real rollback sweep, a snapshot comparison (Resolver, ListDIDs, FindServices, version rows, change log, didstore, publish ledger) and a retry when the " +
-		"operation did not take effect. A case is non-trivial when the fault of its site actually fired during the operation (or the site is 'none'); distinct by " +
-		"(operation kind, fault site, outcome, subject existed before).")
+	r.SetRule("cases = (generated operation sequence over 1-3 subjects under a node configuration, fault site, operation): sequence n runs with didmethods [web nuts] (5 of 8), " +
+		"[nuts], [web], or [nuts] with a restart that enables did:web mid-way (real start-up migration; the documents of a subject differ from then on); besides operations that " +
+		"alter every document a sequence holds operations that alter none or some (unknown service deleted, service updated to itself, service added twice, second deactivation, " +
+		"creation of an existing subject). Every operation of every sequence is executed once per fault site that exists under the configuration " +
+		"(stop at each boundary of transactionHelper, commit error / network refusal of the did:nuts method, stop inside the publish, failing clean-up transaction, sweep while in flight), " +
+		"then restart, ageing by SQL, the real rollback sweep, a snapshot comparison (Resolver, ListDIDs, FindServices, version rows, change log, didstore, publish ledger) against a " +
+		"reference computed from the operation and the state before it, and a retry when the operation did not take effect. A case is non-trivial when the fault of its site actually " +
+		"fired during the operation (or no fault applies); distinct by (operation kind, configuration, methods enabled, fault site, outcome, subject existed before).")
 	r.Require(400, 60)
 	r.Assume("a process stop is a panic that unwinds out of the manager: SqlManager and the method managers keep no state outside SQL, key store and didstore, which all survive")
 	r.Assume("the did:nuts network is a scripted stand-in that signs real DAG transactions and feeds the real ambassador/didstore synchronously; only the network method can fail to commit")
 	r.Assume("SQLite; 'older than a minute' is produced by subtracting an hour from updated_at of the rows in the change log")
+	r.Assume("a failing clean-up transaction is its first DELETE statement returning an error (gorm callback on the node's database handle)")
 
 	logrus.SetLevel(logrus.WarnLevel)
 	logrus.StandardLogger().AddHook(logs)
@@ -1357,17 +1714,27 @@ func TestCheck(t *testing.T) {
 	rec := &sched.Recorder{OnHook: hook}
 	defer rec.Install()()
 
-	nSeq := r.Pick(20, 200)
+	nSeq := r.Pick(24, 240)
 	rnd := r.Rand("sequences")
 	seqs := make([][]op, nSeq)
 	nOps := 0
+	perConfig := map[string]int{}
 	for i := range seqs {
-		seqs[i] = genSequence(rnd, i)
+		seqs[i] = genSequence(rnd, i, configOf(i))
 		nOps += len(seqs[i])
+		perConfig[configOf(i).Name]++
 	}
 	type job struct{ seq, site int }
-	jobs := make(chan job)
-	results := make([]*pass, nSeq*len(sites))
+	var list []job
+	for s := range seqs {
+		for k := range sites {
+			if configOf(s).runs(sites[k]) {
+				list = append(list, job{s, k})
+			}
+		}
+	}
+	jobs := make(chan int)
+	results := make([]*pass, len(list))
 	var wg sync.WaitGroup
 	workers := runtime.NumCPU()
 	if workers > 14 {
@@ -1378,23 +1745,20 @@ func TestCheck(t *testing.T) {
 		go func() {
 			defer wg.Done()
 			id := sched.GoID()
-			for j := range jobs {
-				p := &pass{r: r, e: newEnv(t), seqIdx: j.seq, seq: seqs[j.seq], s: sites[j.site], didSets: map[string][]string{}, abandoned: map[string]string{},
-					seenHash: map[string]map[int]string{}, maxVer: map[string]int{}, stats: map[string]int{}, orders: map[string]bool{},
-					rnd: r.Rand(fmt.Sprintf("pass-%d-%d", j.seq, j.site)), live: map[string]bool{}}
+			for n := range jobs {
+				j := list[n]
+				p := newPass(r, newEnv(t), j.seq, seqs[j.seq], configOf(j.seq), sites[j.site], fmt.Sprintf("pass-%d-%d", j.seq, j.site))
 				passes.Store(id, p)
 				p.run()
 				passes.Delete(id)
 				p.e.close()
 				p.e = nil
-				results[j.seq*len(sites)+j.site] = p
+				results[n] = p
 			}
 		}()
 	}
-	for s := range seqs {
-		for k := range sites {
-			jobs <- job{s, k}
-		}
+	for n := range list {
+		jobs <- n
 	}
 	close(jobs)
 	wg.Wait()
@@ -1416,7 +1780,7 @@ func TestCheck(t *testing.T) {
 			r.Distinct("boundary_traces", o)
 		}
 		for _, s := range p.samples {
-			if p.seqIdx == 0 && (p.s.Name == "stop@after-tx1" || p.s.Name == "commit-error:nuts" || p.s.Name == "stop@in-commit-published-undelivered:nuts" || p.s.Name == "sweep@before-tx2") {
+			if p.seqIdx <= 2 && (p.s.Name == "stop@after-tx1" || p.s.Name == "commit-error:nuts" || p.s.Name == "stop@in-commit-published-undelivered:nuts" || p.s.Name == "sweep@before-tx2") {
 				r.Sample(s)
 			}
 		}
@@ -1424,12 +1788,14 @@ func TestCheck(t *testing.T) {
 	r.Count("sequences", nSeq)
 	r.Count("sequence_operations", nOps)
 	r.Count("passes", len(results))
+	r.Extra("sequences_per_configuration", perConfig)
 	r.Extra("fault_sites", len(sites))
 	r.Extra("faults_injected_by_site_and_operation", byFault)
 	missing := []string{}
 	for _, s := range sites[1:] {
 		for _, k := range kinds {
-			if byFault[s.Name+"/"+k] == 0 && !(k == kDupSvc && (s.Refuse || s.NetStop != "")) {
+			refusedByMethod := k == kDupSvc || k == kDeactivate2
+			if byFault[s.Name+"/"+k] == 0 && !(refusedByMethod && (s.Refuse || s.NetStop != "")) {
 				missing = append(missing, s.Name+"/"+k)
 			}
 		}
